@@ -59,7 +59,10 @@ GFinish == ph = "loop" /\ Finish /\ UNCHANGED <<hist, kn>>
 Next == GSetup \/ GOracle \/ GStop \/ GFinish
 
 Output == [n |-> N, d |-> D, X |-> X, K |-> K, kn |-> kn, L |-> L, par |-> par, hist |-> hist, final |-> View(st),
-           labels |-> Lab(st), tree |-> tree, leafNode |-> leafNode, gains |-> gains, obj |-> ObjLab(K, Lab(st))]
+           labels |-> Lab(st), tree |-> tree, leafNode |-> leafNode, gains |-> gains, obj |-> ObjLab(K, Lab(st)),
+           \* the Tree object's own interface: routing started at ANY node, number of nodes, depth of the tree and of each node
+           routeFrom |-> [nd \in 1..Len(tree) |-> [i \in 1..N |-> RouteFrom(X[i], nd - 1)]],
+           nnodes |-> Len(tree), height |-> Max({tree[i].depth : i \in 1..Len(tree)})]
 Emit == ph = "done" => PrintT(ToJson(Output))
 (* whatever the oracle answers, the loop keeps the limits, the shape of the tree and the routing contract *)
 GlueLimits == Limits
